@@ -34,6 +34,7 @@ def plan(tier, seed):
     n = 16
     units = [{"kind": "decls", "shard": i, "of": n, "pairwise": tier == "thorough"} for i in range(n)]
     units.append({"kind": "suite"})
+    units.append({"kind": "api_removers", "n": 300 if tier == "quick" else 6000})
     if ONLINE:
         # mixed-profile histories (every op kind) and 'sat' histories (XML mutators next to schema-permitted siblings python-pptx
         # never writes: ops.op_saturate / ops.sat_select), both judged by monitor M-INS only
@@ -256,8 +257,85 @@ def _p(seq):
     return "[" + " ".join(pfx_tag(t) for t in seq) + "]"
 
 
+def api_removers(unit, seed, acc):
+    """'remove removes ALL of that kind', at the level of the API calls documented to remove or replace something, on parents where
+    the kind stands more than once (only kinds the schema lets repeat: colour transforms, paragraphs, runs / breaks / fields).
+    The hand-written helpers behind these calls (clear_lum, clear_content, ...) are not generated by xmlchemy and so not in `decls`."""
+    import pptx
+    from pptx.dml.color import RGBColor
+    from pptx.enum.dml import MSO_THEME_COLOR
+    from pptx.oxml import parse_xml
+    from vlib import env, xsdkit
+
+    A = "http://schemas.openxmlformats.org/drawingml/2006/main"
+    prs = pptx.Presentation()
+    slide = prs.slides.add_slide(prs.slide_layouts[6])
+    for i in range(unit["n"]):
+        rnd = env.rng("C10api", seed, i)
+        kind = ["brightness", "frame_clear", "para_clear"][i % 3]
+        sp = slide.shapes.add_textbox(0, 0, 914400, 914400)
+        w = {"api_remover": kind, "i": i, "seed": seed}
+        if kind == "brightness":
+            sp.fill.solid()
+            cf = rnd.choice([sp.fill.fore_color, sp.line.color, sp.text_frame.paragraphs[0].font.color])
+            if rnd.random() < 0.5:
+                cf.rgb = RGBColor(1, 2, 3)
+            else:
+                cf.theme_color = MSO_THEME_COLOR.ACCENT_1
+            clr = cf._color._xClr
+            tags = ["lumMod", "lumOff"] * rnd.choice([1, 2, 3]) + rnd.sample(["satMod", "alpha", "shade", "tint"], rnd.choice([0, 1, 2]))
+            rnd.shuffle(tags)
+            for t in tags:
+                clr.append(clr.makeelement("{%s}%s" % (A, t), {"val": str(rnd.choice([5000, 50000, 90000]))}))
+            others = [c.tag for c in clr if c.tag.rsplit("}", 1)[1] not in ("lumMod", "lumOff")]
+            cf.brightness = rnd.choice([0, 0.25, -0.4, 1.0, -1.0])
+            acc.hit("ColorFormat.brightness")
+            left = [c.tag.rsplit("}", 1)[1] for c in clr]
+            if left.count("lumMod") > 1 or left.count("lumOff") > 1:
+                acc.violation("api-remove-leaves:%s>a:lumMod/a:lumOff" % xsdkit.pfx_tag(clr.tag), "brightness assigned on a colour holding %s leaves %s" % (tags, left), w)
+            if [c.tag for c in clr if c.tag.rsplit("}", 1)[1] not in ("lumMod", "lumOff")] != others:
+                acc.violation("api-remove-takes-others:%s" % xsdkit.pfx_tag(clr.tag), "brightness assigned on a colour holding %s leaves %s" % (tags, left), w)
+            parent, el = "colour", clr
+        else:
+            tf = sp.text_frame
+            tx = tf._txBody
+            for _ in range(rnd.choice([0, 1, 3])):
+                tf.add_paragraph()
+            for p_ in tx.findall("{%s}p" % A):
+                for t in [rnd.choice(["r", "br", "fld", "r"]) for _ in range(rnd.choice([0, 2, 5]))]:
+                    xml = {"r": '<a:r xmlns:a="%s"><a:t>x</a:t></a:r>', "br": '<a:br xmlns:a="%s"/>', "fld": '<a:fld xmlns:a="%s" id="{00000000-0000-0000-0000-000000000000}" type="slidenum"><a:t>1</a:t></a:fld>'}[t] % A
+                    p_.append(parse_xml(xml))
+                if rnd.random() < 0.5:
+                    p_.append(parse_xml('<a:endParaRPr xmlns:a="%s" lang="en-US"/>' % A))
+                if rnd.random() < 0.5:
+                    p_.insert(0, parse_xml('<a:pPr xmlns:a="%s" algn="ctr"/>' % A))
+            if kind == "frame_clear":
+                tf.clear()
+                acc.hit("TextFrame.clear")
+                ps = tx.findall("{%s}p" % A)
+                content = [c.tag.rsplit("}", 1)[1] for p_ in ps for c in p_ if c.tag.rsplit("}", 1)[1] in ("r", "br", "fld")]
+                if len(ps) != 1 or content:
+                    acc.violation("api-remove-leaves:p:txBody>a:p", "TextFrame.clear() leaves %d paragraphs holding %s" % (len(ps), content), w)
+            else:
+                para = rnd.choice(tf.paragraphs)
+                keep = [c.tag.rsplit("}", 1)[1] for c in para._p if c.tag.rsplit("}", 1)[1] in ("pPr", "endParaRPr")]
+                para.clear()
+                acc.hit("_Paragraph.clear")
+                left = [c.tag.rsplit("}", 1)[1] for c in para._p]
+                if [t for t in left if t in ("r", "br", "fld")]:
+                    acc.violation("api-remove-leaves:a:p>a:r/a:br/a:fld", "_Paragraph.clear() leaves %s" % left, w)
+                if [t for t in left if t in ("pPr", "endParaRPr")] != keep:
+                    acc.violation("api-remove-takes-others:a:p", "_Paragraph.clear() on a paragraph with %s leaves %s" % (keep, left), w)
+        acc.count("api_removals_judged")
+        acc.case(desc=w, nontrivial=True, cls="api-remover:" + kind)
+        sp._element.getparent().remove(sp._element)
+
+
 def run_unit(unit, tier, seed, acc):
     from vlib import introspect
+
+    if unit.get("kind") == "api_removers":
+        return api_removers(unit, seed, acc)
 
     if unit.get("kind") == "suite":  # the repository's own tests as one more workload for this property's monitor
         from vlib import suite
@@ -294,6 +372,8 @@ def replay(w, acc):
         from vlib import suite
 
         return suite.replay_suite(w, acc, ID)
+    if "api_remover" in w:
+        return api_removers({"n": w["i"] + 1}, w["seed"], acc)
     if "profile" in w:
         from vlib import histories
 
